@@ -51,13 +51,17 @@ def vcal(events):
 
 def gen_mux(rng):
     """a calendar of 1..12 events; returns (text, constituents) where constituents are (uid, single-event text)"""
-    is_date = rng.random() < 0.3
+    mode = rng.random()
+    is_date = mode < 0.25
+    mixed = mode > 0.8                   # all-day and timed events in one calendar: they tie on the day level
     base = D.date(rng.randint(1990, 2030), rng.randint(1, 12), rng.randint(1, 28))
     nev = rng.choice([1, 2, 2, 3, 4, 6, 12])
     evs = []
     same_start = rng.random() < 0.5      # provoke ties
     for i in range(nev):
         d = base if same_start and rng.random() < 0.7 else base + D.timedelta(days=rng.randint(0, 40))
+        if mixed:
+            is_date = rng.random() < 0.5
         dt = d if is_date else D.datetime.combine(d, D.time(rng.choice([0, 9, 9, 12]), rng.choice([0, 0, 30]), 0))
         nr = rng.choice([0, 1, 1, 1, 2, 3, 6])
         rules = [rule_for(rng, is_date) for _ in range(nr)]
@@ -72,7 +76,7 @@ def gen_mux(rng):
             rd = sorted({dt + D.timedelta(days=rng.randint(1, 60)) for _ in range(rng.randint(1, 4))})
         evs.append(("u%d@verif" % i, dt, rules, rd))
     text = vcal([vevent(u, dt, rules, rdates=rd) for (u, dt, rules, rd) in evs])
-    return text, evs, is_date
+    return text, evs, (is_date if not mixed else None)
 
 
 def schedule(rng, n):
